@@ -408,6 +408,27 @@ func (in *instr) isTimeSleep(call *ast.CallExpr) bool {
 	return false
 }
 
+// isTimeCall: e is a direct call of a function of package time (time.After, time.Tick, ...).
+func (in *instr) isTimeCall(e ast.Expr) bool {
+	call, ok := unparen(e).(*ast.CallExpr)
+	if !ok {
+		return false
+	}
+	sel, ok := call.Fun.(*ast.SelectorExpr)
+	if !ok {
+		return false
+	}
+	for _, a := range call.Args {
+		if containsCall(a) {
+			return false
+		}
+	}
+	if fn, ok := in.info.Uses[sel.Sel].(*types.Func); ok && fn.Pkg() != nil && fn.Pkg().Path() == "time" {
+		return true
+	}
+	return false
+}
+
 func (in *instr) isChan(e ast.Expr) bool {
 	t := in.info.TypeOf(e)
 	if t == nil {
@@ -857,14 +878,22 @@ func unparen(e ast.Expr) ast.Expr {
 // selectStmt rewrites a select statement.
 func (in *instr) selectStmt(st *ast.SelectStmt, withY bool) []ast.Stmt {
 	pos := st.Pos()
-	var pre []ast.Stmt
+	var pre, preTimers []ast.Stmt
 	hoist := func(e ast.Expr) ast.Expr {
 		in.exprs(e)
 		if !containsCall(e) {
 			return e
 		}
 		t := in.tmp("c")
-		pre = append(pre, &ast.AssignStmt{Lhs: []ast.Expr{t}, Tok: token.DEFINE, Rhs: []ast.Expr{e}})
+		as := &ast.AssignStmt{Lhs: []ast.Expr{t}, Tok: token.DEFINE, Rhs: []ast.Expr{e}}
+		if in.isTimeCall(e) {
+			// a fresh timer must be created after the yield point of B: otherwise virtual time could
+			// pass between its creation and the select, and a select with several ready cases is
+			// resolved pseudo-randomly by the runtime (not replayable)
+			preTimers = append(preTimers, as)
+		} else {
+			pre = append(pre, as)
+		}
 		return t
 	}
 	hoistRecv := func(e ast.Expr) {
@@ -914,6 +943,7 @@ func (in *instr) selectStmt(st *ast.SelectStmt, withY bool) []ast.Stmt {
 		// a blocked send case panics when its channel gets closed, skipping the clause bodies
 		pre = append(pre, &ast.DeferStmt{Call: simCall("UP", tk)})
 	}
+	pre = append(pre, preTimers...)
 	for _, c := range st.Body.List {
 		cc := c.(*ast.CommClause)
 		body := in.list(cc.Body)
